@@ -497,7 +497,7 @@ func init() {
 	register(&core.Property{
 		ID:          "C16",
 		Rule:        "(1) script: scripts of 2..14 top-level statements mixing one-line statements, multi-line blocks, multi-line array literals and strings, strings and comments containing { } [ ] \" \\\" ; and line breaks, comment-only and blank lines, random layout (comments before line breaks, blank lines in blocks, newlines in arrays, random blanks), with and without a final newline; the real binary is run in file mode (stdout compared with the reference's statement-by-statement output and with the in-process statement-by-statement script-mode execution), in REPL mode with the text piped in (stdout compared byte for byte with banner + output + '> value' lines from the reference), and -eval on the first statement; exit status must be 0. (2) eval: one self-contained block (function/closure/generator definitions and uses, ending in a write) in all three modes. (3) evalmulti: 2..5 statements side by side on one line (the only way -eval takes several), one case in six with a statement the compiler refuses (33000 constants) among them, in all three modes against the per-statement expectations (every statement echoed in -eval and the REPL, the refusal reported and the rest carried on with). non-trivial = >= 2 statements / every eval case; distinct by script text.",
-		Assumptions: []string{"scripts contain no runtime errors (reports embed pointer values), no carriage returns and end every statement at a line break", "REPL result quoting of strings (Display) is the documented difference between the modes"},
+		Assumptions: []string{"scripts contain no runtime errors (reports embed pointer values) and end every statement at a line break; a carriage return occurs only inside a string literal, and such scripts (like lines beyond 60 000 bytes) skip the REPL leg: the line editor turns CR into a line break and needs seconds per 64 KiB line", "REPL result quoting of strings (Display) is the documented difference between the modes"},
 		Families: []core.Family{
 			{Name: "script", Count: countFn(1200, 20000), Run: c16Script},
 			{Name: "eval", Count: countFn(800, 15000), Run: c16Eval},
